@@ -114,6 +114,11 @@ class Pool:
                               fs("v", invert=True)][:w]),
                 self.cat_all([fs("r", fg="red"), fs("g", bg="green"), fs("y", fg="yellow", bg="blue", invert=True)][:w])]),
             ("two-run rows wider than the screen", lambda: [cat(fs("ab", "red"), fs("cdefgh"[:w], "underline")) for _ in range(max(1, h - 1))]),
+            # blanks whose formatting can be seen (a coloured blank shows its colour when inverted or underlined)
+            ("blank runs with visible formatting", lambda: [self.cat_all([fs("a"), fs("  ", fg="red", invert=True), fs(" ", fg="blue", underline=True),
+                                                                            fs(" ", fg="green", bg="yellow")]), fs("  ", fg="red", invert=True)]),
+            # a row exactly as wide as the terminal that ends in plain blanks (nothing tells the terminal to erase behind it)
+            ("full-width rows ending in plain blanks", lambda: [fs(("ab" + " " * w)[:w]) for _ in range(h)]),
         ]
         if tier == "thorough":
             out += [
@@ -208,8 +213,33 @@ def rule_semantic(src, rep, counts):
                 for hc in ([hide] if hide is not None else [True, False]):
                     jobs.append((h, w, i, j, rs, hc))
 
+    for (h, w) in sizes:
+        for hc in (True, False):
+            jobs.append((h, w, "in place", None, None, hc))
+
     def one(job):
         h, w, i, j, rs, hc = job
+        if i == "in place":
+            # the caller keeps ONE list and edits it between renders: the window must show what the list holds now
+            shared = [pool.fs("ab"[:w]), pool.fs("cd"[:w], "red")][:h]
+
+            def edit1():
+                shared[0] = pool.fs("xy"[:w], "bold")
+                return shared
+
+            def edit2():
+                if len(shared) < h:
+                    shared.append(pool.fs("ef"[:w]))
+                else:
+                    shared[-1] = pool.fs("gh"[:w])
+                return shared
+            steps = [("render", "a list L", lambda: shared, (0, 0)), ("render", "the same list after L[0] = bold 'xy'", edit1, (0, 0)),
+                     ("render", "the same list after its last row was replaced / a row appended", edit2, (0, 0)),
+                     ("render", "the same list, unchanged", lambda: shared, (0, 0))]
+            try:
+                return run_history(it, h, w, steps, hc)
+            except AnalysisError as e:
+                return ("error", str(e), "")
         arrs = pool.arrays(h, w, rep.tier)
         steps = [("render", arrs[i][0], arrs[i][1], _cursor(i, h, w))]
         if rs is not None:
